@@ -1526,6 +1526,70 @@ def _line_num_place(b, operand):
     return any(f == 'line_num' for a, f in fs)
 
 
+UNSIGNED_TY = re.compile(r'^(u8|u16|u32|u64|u128|usize|std::num::NonZero<u(8|16|32|64|128|size)>|std::num::NonZeroU(8|16|32|64|128|size))$')
+# what makes a parsed number a COUNT: it bounds a loop or sizes a collection
+COUNT_USES = {
+    'range':   '`0..n` / `0..=n` (a Range aggregate / RangeInclusive::new): the number of entry lines read',
+    'sized':   '`take(n)`, `repeat_n(x, n)`, `vec![x; n]`, `with_capacity(n)`, `resize(n, x)`',
+    'field':   'QplibFile.num_vars / QplibFile.num_constraints',
+}
+
+
+def _parsed_type(c):
+    """T of `next_parse::<T, E>()`, `parse_or_err_with_line::<T, E>(..)`, `str::parse::<T>()`"""
+    if not c.gargs: return None
+    if c.item == 'parse' and _is_str_call(c): return c.gargs[-1].strip()
+    if c.item in ('next_parse', 'parse_or_err_with_line') and c.path.startswith('qplib::parser::FileCursor'):
+        g = [x for x in c.gargs if not x.startswith('impl ') and 'Iterator' not in x]
+        return g[-2].strip() if len(g) >= 2 else None
+    return None
+
+
+def _count_use(b, c, limit=80):
+    """is the number this call parses used as a count (COUNT_USES 'range' / 'sized')?  Forward through `?`, copies, casts."""
+    seen = set(); work = [c.dst['l']]
+    while work and len(seen) < limit:
+        l = work.pop()
+        if l in seen: continue
+        seen.add(l)
+        for kind, bi, x in b.uses.get(l, ()):
+            if kind == 'stmt':
+                if 'dst' not in x: continue
+                rv = x['rv']
+                if rv['k'] == 'agg' and re.search(r'ops::Range(Inclusive|To|ToInclusive)?$', rv['adt']): return 'range'
+                if rv['k'] in ('use', 'cast', 'ref') and not x['dst']['p']: work.append(x['dst']['l'])
+            elif kind == 'call':
+                if T.TRY_BRANCH.search(x.name) or T.ERR_ADAPTORS.search(x.name): work.append(x.dst['l']); continue
+                if re.search(r'RangeInclusive::<.*>::new$|RangeInclusive<.*>>::new$', T.strip_generics_tail(x.name)): return 'range'
+                pos = [i for i, a in enumerate(x.args) if a['k'] in ('copy', 'move') and a['pl']['l'] == l]
+                if (x.item in ('take', 'with_capacity', 'reserve', 'reserve_exact') and pos) or (x.item in ('from_elem', 'repeat_n') and 1 in pos) or (x.item == 'resize' and 1 in pos): return 'sized'
+    return None
+
+
+def count_type_rules(ctx, cur):
+    """malformed counts are errors: every number read from the file that is used as a count is parsed as an UNSIGNED integer, so that `-1`
+    (and `2.5`) is a parse error with the line number instead of an empty / truncated loop.  The instantiation is read off the resolved
+    facts, so a type that is only inferred (`let num = self.next_parse()?; for _ in 0..num`, which falls back to i32) is decided as what it is."""
+    R = 'C19.errors/count-type'
+    sites = []
+    fl = from_lines(ctx)
+    if fl is not None:
+        for bi, st in find_aggregates(fl, QF):
+            for f in ('num_vars', 'num_constraints'):
+                for c in origin_calls(fl, agg_field_operand(st, f)):
+                    ty = _parsed_type(c)
+                    if ty is not None: sites.append((fl, c, ty, 'QplibFile.' + f))
+    for b in list(cur) + ([fl] if fl is not None else []):
+        for c in b.calls:
+            ty = _parsed_type(c)
+            if ty is None or re.fullmatch(r'[A-Z]\w?', ty): continue          # a type parameter: decided at the instantiating call
+            use = _count_use(b, c)
+            if use and not any(x[1] is c for x in sites): sites.append((b, c, ty, 'a %s count' % use))
+    ctx.check(bool(sites), R + '/sites', 'T-TABLE', 'qplib::parser::FileCursor', 'no count read from the file was found (COUNT_USES)')
+    for b, c, ty, what in sites:
+        ctx.check(bool(UNSIGNED_TY.match(ty)), R, 'T-TABLE', b.name, '%s is parsed as `%s`; a count must be parsed as an unsigned integer, or a negative / fractional count loads silently' % (what, ty), b.site(c.bb), parsed_as=ty)
+
+
 def errors_rules(ctx):
     R = 'C19.errors'
     cur = [b for b in ctx.F.bodies.values() if b.kind in ('fn', 'closure') and 'qplib::parser::FileCursor' in (b.hdr.get('self') or '')]
@@ -1606,6 +1670,7 @@ def errors_rules(ctx):
                 ix = T.expr(b, c.args[1], depth=10)
                 if any(x[0] == 'call' and x[1] in ('parse', 'parse_or_err_with_line') for x in T.expr_walk(ix)) or any(x[0] == 'proj' and x[1][0] == 'call' and 'Fn' in x[1][2] for x in T.expr_walk(ix)):
                     ctx.bad(R + '/index-out-of-range', 'T-GUARD', b.name, 'a table is indexed with a value taken from the file without a range check', b.site(c.bb))
+    count_type_rules(ctx, cur)
     ctx.floor('C19.errors', 20)
 
 
